@@ -30,6 +30,9 @@ func vhCheck(n *Node, lo, hi *int) (blackHeight int) {
 	return l + 1
 }
 
+// H18.rb: inserting k symbolic keys (every arrival and relative order) into
+// an empty tree yields a binary search tree with a black root, no red node
+// with a red child and equal black height on every path.
 func VH_C18_RedBlackInsert() {
 	maxK := 5
 	if vhTier() > 0 {
